@@ -499,3 +499,10 @@ Proof. reflexivity. Qed.
 Lemma approx_scale_strict_refuted : exists sb sp ts bias scs sh,
   integer_approximation sb sp ts bias = Some (scs, sh) /\ In (pow2 (sb - 1)) scs.
 Proof. exists 4%nat, 8%nat, [15 # 16; 1 # 3], [0; 0]%Z. eexists. eexists. split; [vm_compute; reflexivity|]. vm_compute. tauto. Qed.
+
+Lemma last_layer_maupiti_both z_in scale B sumw sh sx sw (acc : Q) :
+  maupiti_last z_in scale (B * scale) sumw sh (acc - inject_Z z_in * inject_Z sumw)
+    == (inject_Z scale / qpow2 sh) * (acc + inject_Z B) /\
+  qabs (maupiti_last z_in scale (B * scale) sumw sh (acc - inject_Z z_in * inject_Z sumw) - fq_real sx sw B acc)
+    == qabs (acc + inject_Z B) * qabs (inject_Z scale / qpow2 sh - sw * sx).
+Proof. split; [apply last_layer_maupiti | apply last_layer_maupiti_err]. Qed.
